@@ -57,6 +57,7 @@ func NavigableSmallWorld(dst GraphBuilder, dims []int, p, q int, r float64, src 
 	iterateOver(dims, func(u []int) {
 		un := nodes[idxFrom(u, dims)]
 		iterateOver(locality, func(delta []int) {
+			un := un
 			d := manhattanDelta(u, delta, dims, -p)
 			if d == 0 || d > p {
 				return
@@ -104,7 +105,7 @@ func NavigableSmallWorld(dst GraphBuilder, dims []int, p, q int, r float64, src 
 			if !ok {
 				panic("depleted distribution")
 			}
-			vn := nodes[vidx]
+			un, vn := un, nodes[vidx]
 			if !isDirected && un.ID() > vn.ID() {
 				un, vn = vn, un
 			}
